@@ -37,7 +37,8 @@ Definition holds (p : pc) : bool :=
   | P_alloc _ | P_constr _ _ | P_ld _ _ | P_e1 _ _ | P_e2 _ | PF_next _ _ | PF_back _ _ | PF_head _
   | PB_back _ _ | PB_next _ _ | PB_tail _ | P_unlock
   | E_ld0 _ _ | E_ldb _ _ _ | E_ldn _ _ _ _ | E_s1 _ _ _ _ _ | E_s2 _ _ _ _ _ | E_alloc _ _ _
-  | E_constr _ _ _ _ | E_ldz _ _ _ | E_stz _ _ _ _ | E_cas _ _ _ _ | E_unlock _ _ => true
+  | E_constr _ _ _ _ | E_ldz _ _ _ | E_stz _ _ _ _ | E_cas _ _ _ _ | E_unlock _ _
+  | PX_alloc | PX_constr _ | PX_free _ | PX_unl => true
   | _ => false
   end.
 Definition priv_node (p : pc) : option nat :=
@@ -386,6 +387,24 @@ Proof.
   - intros j. apply isnode_dealloc.
   - intros j Hj. rewrite isrec_dealloc. exact Hj.
   - intros j Hj Hc. rewrite cs_of_dealloc. destruct (Nat.eqb_spec j k) as [->|]; [rewrite Hc; reflexivity|exact Hc].
+Qed.
+Lemma sameA_alloc_raw g : sameA g (fst (do_alloc g BRaw)).
+Proof.
+  constructor; try reflexivity.
+  - intros k. apply gnode_alloc_raw.
+  - intros k. rewrite isnode_alloc. destruct (Nat.eqb_spec k (nheap g)) as [->|]; [|reflexivity].
+    unfold isnode. rewrite getc_ge by lia. reflexivity.
+  - intros k H. rewrite isrec_alloc. destruct (Nat.eqb_spec k (nheap g)) as [->|]; [|exact H]. apply isrec_lt in H. lia.
+  - intros k Hk Hc. rewrite cs_of_alloc. destruct (Nat.eqb k (nheap g)); auto.
+Qed.
+Lemma sameA_dealloc_raw g k : sameA g (fst (do_dealloc_raw g k)).
+Proof.
+  destruct (dealloc_raw_fields g k) as (F1 & F2 & F3 & F4 & F5 & F6 & F7 & F8 & F9 & F10 & F11 & F12).
+  constructor; auto.
+  - intros j. apply gnode_dealloc_raw.
+  - intros j. apply isnode_dealloc_raw.
+  - intros j Hj. rewrite isrec_dealloc_raw. exact Hj.
+  - intros j Hj Hc. rewrite cs_of_dealloc_raw by (left; exact Hj). exact Hc.
 Qed.
 Lemma sameA_null g kind : sameA g (fst (null_call g kind)).
 Proof. cbn. apply sameA_fault, sameA_refl. Qed.
@@ -1240,6 +1259,8 @@ Lemma wmtx_destroy g k : wmtx (fst (do_destroy g k)) = wmtx g.
 Proof. apply destroy_fields. Qed.
 Lemma wmtx_dealloc g k : wmtx (fst (do_dealloc g k)) = wmtx g.
 Proof. apply dealloc_fields. Qed.
+Lemma wmtx_dealloc_raw g k : wmtx (fst (do_dealloc_raw g k)) = wmtx g.
+Proof. apply dealloc_raw_fields. Qed.
 Lemma wmtx_alloc g b : wmtx (fst (do_alloc g b)) = wmtx g.
 Proof. reflexivity. Qed.
 Lemma wmtx_fault g : wmtx (with_fault g) = wmtx g. Proof. reflexivity. Qed.
@@ -1251,7 +1272,7 @@ Lemma wmtx_tail g x : wmtx (with_tail g x) = wmtx g. Proof. reflexivity. Qed.
 Lemma wmtx_pos g a b : wmtx (with_pos g a b) = wmtx g. Proof. reflexivity. Qed.
 Lemma wmtx_commit g m : wmtx (commit g m) = wmtx g. Proof. reflexivity. Qed.
 Lemma wmtx_null g k : wmtx (fst (null_call g k)) = wmtx g. Proof. reflexivity. Qed.
-#[export] Hint Rewrite wmtx_setn wmtx_setz wmtx_construct wmtx_destroy wmtx_dealloc wmtx_alloc wmtx_fault wmtx_misuse
+#[export] Hint Rewrite wmtx_setn wmtx_setz wmtx_construct wmtx_destroy wmtx_dealloc wmtx_dealloc_raw wmtx_alloc wmtx_fault wmtx_misuse
   wmtx_zhead wmtx_zlog wmtx_head wmtx_tail wmtx_pos wmtx_commit wmtx_null : wm.
 
 Lemma InvA_nonholder' g g' ls t l l' :
@@ -1348,7 +1369,8 @@ Qed.
 (* ---------- the step lemma ---------- *)
 Ltac sameA_tac :=
   repeat first [apply sameA_fault | apply sameA_misuse | apply sameA_zhead | apply sameA_zlog];
-  first [ apply sameA_refl | apply sameA_alloc_rec | apply sameA_destroy | apply sameA_dealloc | apply sameA_null
+  first [ apply sameA_refl | apply sameA_alloc_rec | apply sameA_alloc_raw | apply sameA_destroy | apply sameA_dealloc
+        | apply sameA_dealloc_raw | apply sameA_null
         | (apply sameA_setz; eauto) | (apply sameA_construct_rec; eauto) ].
 Lemma InvA_step : forall g ls t c l g' l' es,
   InvA g ls -> nth_error ls t = Some l -> tstep t c g l = Some (g', l', es) -> InvA g' (upd ls t l').
